@@ -4,8 +4,11 @@ import Slock.Proofs.ConnReg
 
 Over M-CONN (`Slock.Model.Conn`): connections (binary / text) with their `closed` / `inited` flags, announced client id,
 will queue and proxy; the server's `clients` map; events `open`, `init`, `will`, `request`, `deliver`, `close`. The lock
-engine is abstract: a will's execution is its submission to the engine (`Server.engine`, `execOf s c` = the tokens
-connection `c` submitted, in order); a pending request is a token the engine later answers (`deliver`).
+engine is abstract: a will's execution is `Close` handing it to `ProcessCommad` (`Server.willLog`, `execOf s c` = the
+tokens of connection `c` so handled, in order). `ProcessCommad` submits it to the engine or — `Will.self`: DbId 0xff, an
+UNLOCK for a db id never created — answers it itself with UNKNOWN_DB on the closed connection, which fails ("Protocol
+Closed", ignored by the loop) or reaches the re-announced connection. A pending request is a token the engine later
+answers (`deliver`).
 `run evs` = the state after ANY event sequence `evs` from the empty server; `registered {} evs c` = the tokens of the
 `will c …` events the server accepted (answered `ok`) during `evs`, in order — defined from the events alone.
 
@@ -24,9 +27,10 @@ theorem C18_server_survives (evs : List Event) : (run evs).dead = none := run_al
 
 /-! ## wills -/
 
-/-- **Wills run exactly once, in registration order**: after any event sequence, the will commands a closed connection
-(binary or text) has submitted to the engine are exactly the registrations the server accepted for it — same tokens,
-same order, same multiplicity. -/
+/-- **Wills run exactly once, in registration order**: after any event sequence, the will commands `Close` has executed
+for a closed connection (binary or text) are exactly the registrations the server accepted for it — same tokens, same
+order, same multiplicity. ALL of them, whatever the outcome of the earlier ones: a will the protocol answers itself
+(and whose reply write fails) does not stop the loop (`C18_will_outcomes` gives the outcome of each). -/
 theorem C18_wills_once (evs : List Event) (c : Nat) (x : Conn) (hx : (run evs).conns[c]? = some x)
     (hc : x.closed = true) : execOf (run evs) c = registered {} evs c := by
   rw [← reg_eq_registered evs c x hx]
@@ -43,12 +47,26 @@ theorem C18_no_will_without_close (evs : List Event) (c : Nat) (x : Conn) (hx : 
 the engine log — in that very step. -/
 theorem C18_wills_run_at_close (evs : List Event) (c : Nat) (k : Cause) (x : Conn) (hx : (run evs).conns[c]? = some x)
     (ho : x.closed = false) (ha : x.awaiting = 0) :
-    (step (run evs) (.close c k)).1.engine = (run evs).engine ++ (x.wills.map (·.tok)).map (fun t => (c, t)) := by
+    (step (run evs) (.close c k)).1.willLog = (run evs).willLog ++ (x.wills.map (·.tok)).map (fun t => (c, t)) := by
   have e1 : (step (run evs) (.close c k)).1 = (doClose (run evs) c x).1 := by
     unfold step stepClose
     simp [run_alive evs, hx, ho, ha]
   rw [e1]
   exact doClose_all (good_run' evs) hx
+
+/-- **Outcome of every will** (binary connection): the close event reports, for EVERY will of the queue in order, what
+happened to it — `reply = none`: submitted to the engine and queued there; `self = false`, `reply = some d`: submitted,
+answered in the call, reply routed to `d`; `self = true`: answered by the protocol itself, never submitted, reply
+routed to `d` (dropped unless a connection re-announced the id — `C18_routing_will_replies`). -/
+theorem C18_will_outcomes (evs : List Event) (c : Nat) (k : Cause) (x : Conn) (hx : (run evs).conns[c]? = some x)
+    (ho : x.closed = false) (ha : x.awaiting = 0) (hk : x.kind = .binary) :
+    (step (run evs) (.close c k)).2 =
+      .closed (x.wills.map (willOutcome (closeState (run evs) c x) c)) none := by
+  have hg := good_run' evs
+  have e1 : (step (run evs) (.close c k)).2 = .closed (doClose (run evs) c x).2.1 (doClose (run evs) c x).2.2 := by
+    unfold step stepClose
+    simp [run_alive evs, hx, ho, ha]
+  rw [e1, doClose_outcomes hg hx hk, doClose_alive hg hx]
 
 /-- `close (close c) = close c`: a second close event (any cause) changes nothing — no will runs twice. -/
 theorem C18_close_idempotent (s : Server) (c : Nat) (k k' : Cause) :
@@ -86,12 +104,12 @@ theorem C18_routing_anonymous_dropped (evs : List Event) (tok o : Nat) (x : Conn
 /-- **Routing of the wills' own replies**: if the close of connection `c` reports that the immediate reply of one of its
 wills was written to connection `d`, then `c` had announced an id, `d` is the connection registered under that id at
 that moment, `d ≠ c`, and `d` is open. -/
-theorem C18_routing_will_replies (evs : List Event) (c : Nat) (k : Cause) (res : List (Nat × Option Dest))
-    (f : Option Fatal) (t d : Nat)
-    (h : (step (run evs) (.close c k)).2 = .closed res f) (hm : (t, some (Dest.to d)) ∈ res) :
+theorem C18_routing_will_replies (evs : List Event) (c : Nat) (k : Cause) (res : List WillRes)
+    (f : Option Fatal) (r : WillRes) (d : Nat)
+    (h : (step (run evs) (.close c k)).2 = .closed res f) (hm : r ∈ res) (hrd : r.reply = some (Dest.to d)) :
     ∃ x, (run evs).conns[c]? = some x ∧ x.inited = true ∧ aget (run evs).clients x.cid = some d ∧ d ≠ c ∧
       ∃ y, (run evs).conns[d]? = some y ∧ y.closed = false :=
-  close_reply_to (good_run' evs) c k res f t d h hm
+  close_reply_to (good_run' evs) c k res f r d h hm hrd
 
 /-- REMARK (not a violation of the property as worded — the receiver did announce the id): "announced" in `C18_routing`
 is "at some point". Connection 1 adopted the proxy of closed connection 0 under id 5, then re-announced id 6;
@@ -109,7 +127,7 @@ theorem C18_routing_follows_adoption :
 will tokens of the closing connection, in queue order, and the issuer the engine remembers for every other pending
 token (queued request or hold) is unchanged: those stay exactly as valid as they were. -/
 theorem C18_holds_survive (s : Server) (c : Nat) (k : Cause) :
-    ∃ toks, (step s (.close c k)).1.engine = s.engine ++ toks.map (fun t => (c, t)) ∧
+    ∃ toks, (step s (.close c k)).1.willLog = s.willLog ++ toks.map (fun t => (c, t)) ∧
       (∀ x, s.conns[c]? = some x → ∃ rest, x.wills.map (·.tok) = toks ++ rest) ∧
       (∀ tok, tok ∉ toks → aget (step s (.close c k)).1.owner tok = aget s.owner tok) := by
   cases hd : s.dead with
@@ -137,20 +155,33 @@ theorem C18_pending_answerable (evs : List Event) (tok : Nat) : (route (run evs)
 /-- a lifetime with INIT, three wills (one queued in the engine), a same-id reconnect before the close: the wills run
 in order, the immediate replies go to the reconnected connection -/
 def demo : List Event :=
-  [.open .binary, .init 0 7, .will 0 1 true, .will 0 2 false, .will 0 3 true, .request 0 9, .open .binary, .init 1 7,
+  [.open .binary, .init 0 7, .will 0 1 true false, .will 0 2 false false, .will 0 3 true false, .request 0 9, .open .binary, .init 1 7,
    .close 0 .protoErr]
 
 example : execOf (run demo) 0 = [1, 2, 3] ∧ registered {} demo 0 = [1, 2, 3] := by decide
-example : (runOut {} demo).getLast? = some (.closed [(1, some (.to 1)), (2, none), (3, some (.to 1))] none) := by decide
+example : (runOut {} demo).getLast? = some (.closed [⟨1, false, some (.to 1)⟩, ⟨2, false, none⟩, ⟨3, false, some (.to 1)⟩] none) := by decide
 example : (route (run demo) 9).2 = .to 1 ∧ aget (run demo).owner 9 = some 0 := by decide
 example : (route (run (demo ++ [.close 1 .client])) 9).2 = .dropped := by decide
 example : execOf (run (demo.dropLast)) 0 = [] := by decide
 
+/-- a self-answered will in the MIDDLE (token 2: e.g. WILL_UNLOCK for a db that was never created) of an anonymous
+connection: its reply write fails, the wills after it still run, all three are executed in order -/
+def selfMid : List Event :=
+  [.open .binary, .will 0 1 true false, .will 0 2 false true, .will 0 3 false false, .close 0 .client]
+
+example : execOf (run selfMid) 0 = [1, 2, 3] ∧ registered {} selfMid 0 = [1, 2, 3] := by decide
+example : (runOut {} selfMid).getLast? =
+    some (.closed [⟨1, false, some .dropped⟩, ⟨2, true, some .dropped⟩, ⟨3, false, none⟩] none) := by decide
+/-- the same with a same-id reconnect: the self-answered will's UNKNOWN_DB reply is delivered to the new connection -/
+example : (runOut {} [.open .binary, .init 0 7, .will 0 1 true false, .will 0 2 false true, .will 0 3 false false,
+                      .open .binary, .init 1 7, .close 0 .server]).getLast? =
+    some (.closed [⟨1, false, some (.to 1)⟩, ⟨2, true, some (.to 1)⟩, ⟨3, false, none⟩] none) := by decide
+
 /-- was the crash: INIT + two wills + disconnect — both run, their replies are dropped, the server lives -/
-example : (runOut {} [.open .binary, .init 0 7, .will 0 1 true, .will 0 2 true, .close 0 .client]).getLast? =
-    some (.closed [(1, some .dropped), (2, some .dropped)] none) := by decide
+example : (runOut {} [.open .binary, .init 0 7, .will 0 1 true false, .will 0 2 true false, .close 0 .client]).getLast? =
+    some (.closed [⟨1, false, some .dropped⟩, ⟨2, false, some .dropped⟩] none) := by decide
 /-- was never executed: a text connection's will -/
-example : execOf (run [.open .text, .will 0 1 true, .close 0 .client]) 0 = [1] := by decide
+example : execOf (run [.open .text, .will 0 1 true false, .close 0 .client]) 0 = [1] := by decide
 /-- was delivered to whoever announced the all-zero id -/
 example : (route (run [.open .binary, .open .binary, .request 0 5, .close 0 .client, .init 1 0]) 5).2 = .dropped := by decide
 
